@@ -35,7 +35,7 @@ var c02Families = []string{"int32-range", "string-length-pattern", "enumeration"
 var c02Scopes = []string{"module", "ancestor", "grouping", "submodule", "imported", "own-prefix"}
 
 func (p *c02) Bounds(tier string) map[string]interface{} {
-	return map[string]interface{}{"families": c02Families, "chain_depth": "0..3", "scopes": c02Scopes, "uses": "0..3", "builtins": "all 19 built-in types without restriction", "product": map[string]string{"quick": "one dimension at a time from a baseline plus all pairs of {depth, scope, uses, who-states-default}", "thorough": "full product"}[tier]}
+	return map[string]interface{}{"families": c02Families, "chain_depth": "0..3", "scopes": c02Scopes, "uses": "0..3", "builtins": "all 19 built-in types without restriction", "product": "full product (both tiers)"}
 }
 
 func (p *c02) Cases(tier string, emit func(interface{})) {
@@ -63,7 +63,8 @@ func (p *c02) Cases(tier string, emit func(interface{})) {
 		}
 	}
 	states := []int{0, 1, 2, 4, 3, 5, 7, 128, 129, 130}
-	if tier == "thorough" {
+	// the full product takes three seconds: both tiers run it
+	if tier == "thorough" || tier == "quick" {
 		for _, f := range c02Families {
 			for d := 0; d <= 3; d++ {
 				for _, sc := range c02Scopes {
